@@ -746,6 +746,34 @@ def run_drill(case, rec, rng, scene):
         rec.nontrivial = True
         rec.shape = ["drill", case["cls"], case["target"], case["version"], len(store0), "left-alone"]
         return
+    if mode == 2 and case["target"] != "same-parent":
+        # the same group once more into the same place: the identifiers are taken now, the second copy gets its own
+        try:
+            again = grp.copy(parent=target)
+            store_again = hole_store(again)
+            rec.see("second-copies-of-drillhole-groups")
+            for path, x, y in diff_paths(store0, store_again, limit=4):
+                fld = path.strip("/").split("/")
+                rec.fail("C12.holes", op=where + ":second-copy", cls=case["cls"], attr=fld[1] if len(fld) > 1 else "hole", detail=f"{path}: source {short(x)} second copy {short(y)}", counted=True)
+            first_ids = {str(new.uid)} | {str(h.uid) for h in new.children}
+            second_ids = {str(again.uid)} | {str(h.uid) for h in again.children}
+            rec.check("C12.holes", not (first_ids & second_ids), op=where + ":second-copy", cls=case["cls"], attr="uid", detail=f"the two copies share identifiers {sorted(first_ids & second_ids)[:2]}")
+            tws = again.workspace
+            if tws is not scene.ws:
+                again = None
+                nuid = new.uid
+                new = None
+                tws.close()
+                tws.open()
+                new = tws.get_entity(nuid)[0]
+                rec.check("C12.holes", new is not None and hole_store(new) == store0, op=where + ":second-copy:reopened", cls=case["cls"], attr="holes", detail="after two copies into the other workspace and a re-open, the first copy reads differently")
+        except Exception as exc:  # noqa: BLE001
+            from ..core import exc_origin
+
+            if not exc_origin(exc)[0]:
+                raise
+            rec.fail("C12.holes", op=where + ":second-copy", cls=case["cls"], attr=type(exc).__name__, detail=f"copying the drillhole group a second time to the same place raised {type(exc).__name__}: {short(str(exc), 160)}")
+            return
     # edit the copy (update one hole's data, remove another's), then re-read the source lazily
     try:
         holes = [h for h in new.children if hasattr(h, "surveys")]
